@@ -25,7 +25,7 @@ MANIFEST = dict(
          "is contiguous per block. The constants (array length, moduli, semaphore initial values, finish posts, thread limit) are re-read from cli/yara.c on every run. "
          "The model is tied to the code by replaying recorded histories of the real file_queue_put/get/finish (stress threads, TSan+ASan) in the model. "
          "Thread-count independence of the printed results, compiled-vs-source equivalence with externals at either stage and the exit-status rule are *sampled* on the "
-         "real binaries (generated trees > 64 files, options -s -L -X -m -g -e -c -n -t -i -l -r, -p 1..32, repeated runs); partial: -l is only checked as "
+         "real binaries (generated trees > 64 files, options -s -L -X -m -g -e -c -n -t -i -l -r and -f combined with -s/-L/-X, -p 1..32, repeated runs); partial: -l is only checked as "
          "sub-multiset + lower bound (its directory semantics is a global counter), scan deadlines/timeouts and sem_timedwait interruption are outside the model.",
     design_ref="DESIGN.md §4 D11, §5 C18, Appendix A.6, translator T10",
     note=core.TB + "The CLI comparison trusts single-file single-threaded invocations of the same binary as the reference for what a file's output is.")
@@ -624,7 +624,20 @@ def build_tree_cached(seed, quick):
 # ---------------------------------------------------------------------------------------------- scenario generation
 
 OPTION_SETS = [[], ["-s"], ["-s", "-L"], ["-s", "-X"], ["-L", "-X"], ["-s", "-L", "-X", "-m", "-g", "-e"], ["-m", "-g"], ["-e", "-g"], ["-c"], ["-n"],
-               ["-n", "-g", "-e", "-m"], ["-c", "-n"], ["-s", "-m"], ["-X", "-e"]]
+               ["-n", "-g", "-e", "-m"], ["-c", "-n"], ["-s", "-m"], ["-X", "-e"],
+               # fast matching mode changes which string matches are printed (presence-only strings: first occurrence only); every
+               # worker's scanner must get it: compared, like everything else, with per-file single-threaded runs WITH the same options
+               ["-f", "-s"], ["-f", "-L", "-X"], ["-f", "-s", "-L", "-g"]]
+
+
+def fast_mode_rules(tag):
+    """strings that occur many times in the generated text files, used in presence-only conditions (fast mode reports one match
+    for them) next to strings whose count / offsets matter (reported in full in either mode)"""
+    return ("rule r%s_fa { strings: $a = \"alpha\" condition: $a }\n"
+            "rule r%s_fb { strings: $a = \"bravo\" $b = \"charlie\" $c = \"delta\" condition: any of them }\n"
+            "rule r%s_fc { strings: $a = \"echo\" $b = \"golf\" condition: $a or $b }\n"
+            "rule r%s_fd { strings: $a = \"hotel\" $b = \"india\" condition: $a and #b > 1 }\n"
+            "rule r%s_fe { strings: $a = /ju[a-z]iet/ $b = { 61 6C 70 68 61 } condition: $a or $b at 0 }\n" % ((tag,) * 5))
 
 
 def gen_scenarios(tier):
@@ -644,6 +657,8 @@ def gen_scenarios(tier):
         osets = [OPTION_SETS[i % len(OPTION_SETS)] for i in r.sample(range(len(OPTION_SETS) * 2), nsets)]
         if ["-s"] not in osets:
             osets[0] = ["-s"]
+        if not any("-c" in o for o in osets):      # the per-file counter of -c is per-thread state: always in the grid
+            osets[2] = r.choice([["-c"], ["-c", "-n"]])
         for oi, base in enumerate(osets):
             sid += 1
             nfiles = r.choice([1, 1, 2])
@@ -668,6 +683,13 @@ def gen_scenarios(tier):
                         "mode": "list" if (oi == 1 or r.random() < .15) else "dir",
                         # last line of the list with / without a newline: the first tree's forced list scenario has none
                         "list_nl": (ti % 2 == 1) if oi == 1 else (r.random() < .5)})
+        # fast matching mode with match printing: one forced scenario per tree (directory and scan list alternate)
+        sid += 1
+        text, info = gen_rules(r, "%df" % sid)
+        scs.append({"kind": "threads", "id": "%d" % sid, "tree": t, "rules": [{"ns": None, "text": fast_mode_rules("%dq" % sid) + text}],
+                    "opts": ["-f"] + r.choice([["-s"], ["-L"], ["-s", "-L"], ["-X", "-s"]]) + ["-r"],
+                    "p": [1, 2, 32, r.randint(3, 16)] if quick else [1, 2, 3, 4, 8, 16, 32, 0], "reps": 2,
+                    "mode": "list" if ti % 2 == 1 else "dir", "list_nl": True})
         # -l : partial check
         sid += 1
         text, info = gen_rules(r, "%dl" % sid)
@@ -692,6 +714,8 @@ def gen_scenarios(tier):
             sid += 1
             text, info = gen_rules(r, "%dx" % sid, externals=True)
             vi = r.choice([0, 2, 4, 6, 101, "010", "0100", "007", "-0", 5000000000, -5000000000, 4294967303])
+            if ci == 1:
+                vi = r.choice(["010", "0100"])      # decimal reading of a leading-zero value at the scan stage: in every tree, not by luck
             cext = [("ext_i", str(vi)), ("ext_s", r.choice(["abc", "xyz", "cab"])), ("ext_b", r.choice(["true", "false"]))]
             mode = ci % 3
             if mode == 0:
